@@ -552,6 +552,16 @@ func (dbPT *DBPTInfo) NewMergeSetIndex(rp string, timeRangeInfo *meta.ShardTimeR
 		} else {
 			dbPT.indexBuilder[indexID] = indexBuilder
 			dbPT.indexBuilder[indexID].Relations[uint32(index.MergeSet)] = indexRelation
+			// an index made after the policy's deleted-tsid index has been opened must subtract the
+			// same deleted tsids as the older indexes of the policy (SetDelMergeSetForEachMergeSet
+			// only reaches the indexes that exist when it runs)
+			if delBuilder := dbPT.delIndexBuilderMap[rp]; delBuilder != nil {
+				delMergeSet, ok1 := delBuilder.GetPrimaryIndex().(*tsi.MergeSetIndex)
+				curMergeSet, ok2 := primaryIndex.(*tsi.MergeSetIndex)
+				if ok1 && ok2 {
+					curMergeSet.SetDeleteMergeSet(delMergeSet)
+				}
+			}
 		}
 		err = indexBuilder.Open()
 	}
